@@ -48,8 +48,10 @@ def project(files, agg):
     fresh = ScanTotals()
     fileprof_ok = True
     for n, (path, lang, lens) in enumerate(files):
-        ms = [Measurement(f"fn{n}_{i}", Location(10 * i + 1, 1), Location(10 * i + 2, 2), L) for i, L in enumerate(lens)]
-        e = SourceFileEntry("/".join(path), f"sum{n}", lang, sum(lens), ms)
+        # checksum and function names are functions of the content: two files with the same language and
+        # measurement list are verbatim copies of each other (same checksum), as a copied module is
+        ms = [Measurement(f"fn{i}", Location(10 * i + 1, 1), Location(10 * i + 2, 2), L) for i, L in enumerate(lens)]
+        e = SourceFileEntry("/".join(path), "sum-" + lang + "-" + "-".join(map(str, lens)), lang, sum(lens), ms)
         fileprof_ok = fileprof_ok and sum(e.profile()) == e.loc
         cb.add_file(e)
         fresh.add(e)
@@ -130,17 +132,25 @@ def accept(wd, b, events, name="c07_trace"):
 
 def random_codebase(rng):
     names = ["a", "b", "src", "x.y", ".a", ".src", "..b", "a.", "_a"]  # dotted twins of ordinary names: folder keys are whole names
-    fns = [("f.py", "Python"), ("g.c", "C"), ("h.js", "JavaScript"), ("i.py", "Python"), ("Main.java", "Java"), ("a_test.py", "Python"), ("src2.c", "C"), ("b.py", "Python")]  # names that start with a directory name
+    fns = [("f.py", "Python"), ("g.c", "C"), ("h.js", "JavaScript"), ("h2.js", "JavaScript"), ("i.py", "Python"), ("Main.java", "Java"), ("Main2.java", "Java"), ("a_test.py", "Python"), ("src2.c", "C"), ("b.py", "Python")]  # names that start with a directory name
     n = rng.randint(0, 12)
     seen, files = set(), []
     while len(files) < n:
-        d = [rng.choice(names) for _ in range(rng.randint(0, 5))]
-        fn, lang = rng.choice(fns)
+        if files and rng.random() < 0.3:  # a verbatim copy of a file that is already there: same folder or another, another name of the same language
+            src, lang, lens = rng.choice(files)
+            d = list(src[:-1]) if rng.random() < 0.7 else [rng.choice(names) for _ in range(rng.randint(0, 3))]
+            fn = rng.choice([f for f, l in fns if l == lang])
+            lens = list(lens)
+        else:
+            d = [rng.choice(names) for _ in range(rng.randint(0, 5))]
+            fn, lang = rng.choice(fns)
+            lens = [rng.choice([1, 2, 15, 16, 30, 31, 60, 61, 100]) for _ in range(rng.randint(0, 4))]
         p = tuple(d + [fn])
         if p in seen:
+            if len(seen) > 40:
+                break
             continue
         seen.add(p)
-        lens = [rng.choice([1, 2, 15, 16, 30, 31, 60, 61, 100]) for _ in range(rng.randint(0, 4))]
         files.append((p, lang, lens))
     return files
 
